@@ -292,6 +292,7 @@ pub fn profile_for(prop: &str, tier: &str) -> Profile {
             p.malformed_pct = 35;
             p.w_rollback = 2;
             p.w_edit = 6;
+            p.w_forge = 2;
         }
         "C11" => {
             p.hybrid_pct = 50;
@@ -311,6 +312,8 @@ pub fn profile_for(prop: &str, tier: &str) -> Profile {
             p.w_refresh = 6;
             p.w_roundtrip = 3;
             p.w_rollback = 2;
+            p.w_forge = 4;
+            p.max_keys = 8;
         }
         "C18" => {
             p.w_recaps = 8;
